@@ -228,7 +228,7 @@ func (r *runner) alloc(na, np, nl int) (channel.Allocation, string) {
 			}
 		}
 	}
-	switch g.R.Intn(10) {
+	switch g.R.Intn(12) {
 	case 0:
 		a.Locked, class = []channel.SubAlloc{}, "empty-locked"
 	case 1:
@@ -244,6 +244,29 @@ func (r *runner) alloc(na, np, nl int) (channel.Allocation, string) {
 	case 5:
 		if na > 1 {
 			a.Balances[0], class = a.Balances[1], "aliased-rows"
+		}
+	case 6:
+		// every slice with spare capacity behind its length (as append leaves them): a clone that keeps
+		// a backing array shares what a later append writes
+		a.Assets = append(make([]channel.Asset, 0, len(a.Assets)+3), a.Assets...)
+		a.Backends = append(make([]wallet.BackendID, 0, len(a.Backends)+3), a.Backends...)
+		a.Locked = append(make([]channel.SubAlloc, 0, len(a.Locked)+2), a.Locked...)
+		for i := range a.Balances {
+			a.Balances[i] = append(make([]channel.Bal, 0, len(a.Balances[i])+2), a.Balances[i]...)
+		}
+		for i := range a.Locked {
+			a.Locked[i].Bals = append(make([]channel.Bal, 0, len(a.Locked[i].Bals)+2), a.Locked[i].Bals...)
+			if a.Locked[i].IndexMap != nil {
+				a.Locked[i].IndexMap = append(make([]channel.Index, 0, len(a.Locked[i].IndexMap)+2), a.Locked[i].IndexMap...)
+			}
+		}
+		class = "spare-capacity"
+	case 7:
+		// emptied, not nil: the list after its last sub-allocation was removed (length 0, capacity > 0)
+		if nl > 0 {
+			a.Locked, class = a.Locked[:0], "locked-emptied"
+		} else {
+			a.Locked, class = make([]channel.SubAlloc, 0, 2), "locked-emptied"
 		}
 	}
 	return a, class
